@@ -102,7 +102,7 @@ func init() {
 	}
 }
 
-const nHandSets = 19
+const nHandSets = 22
 
 func lookupJobs(h string, nsets, maxLh, maxLp int) []*Job {
 	var js []*Job
@@ -127,9 +127,9 @@ func init() {
 		},
 		Bounds: func(tier string) string {
 			if tier == "thorough" {
-				return "204 corpus route sets x every Host of 0..4 bytes x every path of 1..8 bytes (full byte alphabet, no empty segment), method GET; entry-point agreement (ServeHTTP, Lookup, Reverse, Iter.Reverse, Txn read/write Lookup+Reverse) on the same sets with Host 0..3, path 1..6"
+				return fmt.Sprint(nHandSets+187) + " corpus route sets x every Host of 0..4 bytes x every path of 1..8 bytes (full byte alphabet, no empty segment), method GET; entry-point agreement (ServeHTTP, Lookup, Reverse, Iter.Reverse, Txn read/write Lookup+Reverse) on the same sets with Host 0..3, path 1..6"
 			}
-			return "64 corpus route sets x every Host of 0..3 bytes x every path of 1..7 bytes (full byte alphabet, no empty segment), method GET; entry-point agreement (ServeHTTP, Lookup, Reverse, Iter.Reverse, Txn read/write Lookup+Reverse) on the same sets with Host 0..2, path 1..5"
+			return fmt.Sprint(nHandSets+47) + " corpus route sets x every Host of 0..3 bytes x every path of 1..7 bytes (full byte alphabet, no empty segment), method GET; entry-point agreement (ServeHTTP, Lookup, Reverse, Iter.Reverse, Txn read/write Lookup+Reverse) on the same sets with Host 0..2, path 1..5"
 		},
 		RequiredCovers: []string{"direct match", "no direct match", "matched via hostname", "one backtrack", "two backtracks", "infix catch-all matched", "lookup matched", "lookup tsr"},
 	}
@@ -152,13 +152,13 @@ func init() {
 				js = lookupJobs("C08Tsr", nHandSets+47, 3, 7)
 			}
 			for _, s := range dsets {
-				for mode := 0; mode < 5; mode++ {
+				for mode := 0; mode < 6; mode++ {
 					for lp := 2; lp <= dlp; lp++ {
 						for lq := 0; lq <= dlq; lq++ {
 							if lq > 0 && lp > 4 && mode != 1 {
 								continue
 							}
-							if tier != "thorough" && lp > 3 && (mode == 1 || mode == 3 || mode == 4) && !(s == 7 && mode == 1 && lq == 0) {
+							if tier != "thorough" && lp > 3 && (mode == 1 || mode == 3 || mode == 4 || mode == 5) && !(s == 7 && mode == 1 && lq == 0) {
 								continue // redirect configurations fork on every escaping class: longer paths in thorough
 							}
 							js = append(js, &Job{Harness: "C08Dispatch", Params: map[string]int{"set": s, "mode": mode, "lp": lp, "lq": lq, "raw": 0}})
@@ -193,9 +193,9 @@ func init() {
 		},
 		Bounds: func(tier string) string {
 			if tier == "thorough" {
-				return "C08(a-c): 204 corpus route sets x every Host of 0..4 bytes x every path of 2..8 bytes (full byte alphabet, no empty segment), method GET; (d,e): 12 sets registered under GET/POST/CONNECT x 5 trailing-slash configurations (all ignore, all redirect, none, mixed per route, router-wide redirect with per-route ignore) x every path of 2..5 bytes x every printable raw query of 0..2 bytes, Location resolved by an RFC 3986 reference resolver; (f): 63 sets x 9 extra routes x every path of 2..6 bytes (Host 0 and 2 bytes)"
+				return "C08(a-c): " + fmt.Sprint(nHandSets+187) + " corpus route sets x every Host of 0..4 bytes x every path of 2..8 bytes (full byte alphabet, no empty segment), method GET; (d,e): 12 sets registered under GET/POST/CONNECT x 6 trailing-slash configurations (all ignore, all redirect, none, mixed per route, router-wide redirect with per-route ignore, router-wide ignore with per-route redirect) x every path of 2..5 bytes x every printable raw query of 0..2 bytes, Location resolved by an RFC 3986 reference resolver; (f): 63 sets x 9 extra routes x every path of 2..6 bytes (Host 0 and 2 bytes)"
 			}
-			return "C08(a-c): 64 corpus route sets x every Host of 0..3 bytes x every path of 2..7 bytes (full byte alphabet, no empty segment), method GET; (d,e): 5 sets registered under GET/POST/CONNECT x 5 trailing-slash configurations x every path of 2..3 bytes (2..4 without redirect, and on one set with it) x every printable raw query of 0..1 bytes, Location resolved by an RFC 3986 reference resolver, plus percent-encoded requests (RawPath set, every valid raw path of 5 bytes and, on two sets, 7 bytes); (f): 33 sets x 9 extra routes x every path of 2..5 bytes (Host 0 and 2 bytes)"
+			return "C08(a-c): " + fmt.Sprint(nHandSets+47) + " corpus route sets x every Host of 0..3 bytes x every path of 2..7 bytes (full byte alphabet, no empty segment), method GET; (d,e): 5 sets registered under GET/POST/CONNECT x 6 trailing-slash configurations (incl. router-wide ignore with per-route redirect) x every path of 2..3 bytes (2..4 without redirect, and on one set with it) x every printable raw query of 0..1 bytes, Location resolved by an RFC 3986 reference resolver, plus percent-encoded requests (RawPath set, every valid raw path of 5 bytes and, on two sets, 7 bytes); (f): 33 sets x 9 extra routes x every path of 2..5 bytes (Host 0 and 2 bytes)"
 		},
 		RequiredCovers: []string{"tsr expected", "no route even after slash adjustment", "tsr expected under a matching host", "tsr ignored: served", "tsr redirected", "tsr but CONNECT: unmatched", "tsr neither ignored nor redirected: unmatched", "irrelevant route compared", "percent-encoded request path"},
 	}
@@ -208,15 +208,19 @@ func init() {
 			if tier == "thorough" {
 				return lookupJobs("C16Alloc", nHandSets+187, 4, 8)
 			}
-			return lookupJobs("C16Alloc", nHandSets+47, 3, 6)
+			js := lookupJobs("C16Alloc", nHandSets+47, 3, 6)
+			for _, s := range []int{1, 7, 13, 18} {
+				js = append(js, &Job{Harness: "C16Alloc", Params: map[string]int{"set": s, "lh": 0, "lp": 6, "raw": 1}})
+			}
+			return js
 		},
 		Bounds: func(tier string) string {
 			if tier == "thorough" {
-				return "204 corpus route sets (every route ignoring trailing slashes) x every Host of 0..4 bytes x every path of 1..8 bytes; warm-up = the same request served once"
+				return fmt.Sprint(nHandSets+187) + " corpus route sets (every route ignoring trailing slashes) x every Host of 0..4 bytes x every path of 1..8 bytes; warm-up = the same request served once"
 			}
-			return "64 corpus route sets (every route ignoring trailing slashes) x every Host of 0..3 bytes x every path of 1..6 bytes; warm-up = the same request served once"
+			return fmt.Sprint(nHandSets+47) + " corpus route sets (every route ignoring trailing slashes) x every Host of 0..3 bytes x every path of 1..6 bytes; warm-up = the same request served once"
 		},
-		RequiredCovers: []string{"matching request served"},
+		RequiredCovers: []string{"matching request served", "percent-encoded matching request"},
 		Assumptions: []string{
 			"allocation = an executed SSA instruction that can heap-allocate (new/make/closure/non-pointer MakeInterface/append growth/string conversion or concatenation/sync.Pool.New/fmt); escape analysis of the gc compiler is not modelled: every reported event is re-measured natively with testing.AllocsPerRun before it is reported, and sampled passing paths are measured natively too",
 			"sync.Pool modelled as a LIFO bag (no per-P caches, no GC clearing)",
@@ -244,9 +248,9 @@ func init() {
 		},
 		Bounds: func(tier string) string {
 			if tier == "thorough" {
-				return "204 corpus route sets (hostname and path-only) x every Host header of 0..7 bytes (ports, trailing dot, extra labels/characters, brackets) x every path of 1..4 bytes"
+				return fmt.Sprint(nHandSets+187) + " corpus route sets (hostname and path-only) x every Host header of 0..7 bytes (ports, trailing dot, extra labels/characters, brackets) x every path of 1..4 bytes"
 			}
-			return "64 corpus route sets (hostname and path-only) x every Host header of 0..5 bytes (ports, trailing dot, extra labels/characters, brackets) x every path of 1..3 bytes; and the same routers after every hostname was extended by a label, registered and deleted again (Host 1..3, path 1..2)"
+			return fmt.Sprint(nHandSets+47) + " corpus route sets (hostname and path-only) x every Host header of 0..5 bytes (ports, trailing dot, extra labels/characters, brackets) x every path of 1..3 bytes; and the same routers after every hostname was extended by a label, registered and deleted again (Host 1..3, path 1..2)"
 		},
 		RequiredCovers: []string{"matched via hostname", "host ignored (no hostname routes)", "fallback to path-only", "host with port matched", "host with trailing dot matched"},
 	}
@@ -263,7 +267,7 @@ func c02Jobs(tier string) []*Job {
 			js = append(js, &Job{Harness: "C02History", Params: map[string]int{"set": set, "k": k, "methods": methods, "symlen": symlen, "pool": pool, "iter": 0}})
 		}
 	}
-	starts := []int{-1, 0, 6, 11, 16, 17}
+	starts := []int{-1, 0, 6, 11, 16, 17, 19}
 	if tier == "thorough" {
 		starts = []int{-1, 0, 1, 2, 4, 6, 9, 10, 11, 12, 14, 16, 17, 18, 19, 20}
 	}
@@ -345,7 +349,7 @@ func init() {
 		},
 		Bounds: func(tier string) string {
 			if tier == "thorough" {
-				return "149 corpus route sets (routes alternately GET/POST) x 10 history shapes (every unregistered route prefix inserted and deleted again, reverse, interleaved, extras inserted+deleted after / before, update in place, delete+reinsert each, truncate+refill in one txn, aborted txn full of writes, delete all + reinsert reversed) x request method in {GET,POST,DELETE,OPTIONS} x every Host of 0..3 bytes x every path of 1..7 bytes; 405 and auto-OPTIONS enabled"
+				return fmt.Sprint(nHandSets+133-1) + " corpus route sets (routes alternately GET/POST) x 10 history shapes (every unregistered route prefix inserted and deleted again, reverse, interleaved, extras inserted+deleted after / before, update in place, delete+reinsert each, truncate+refill in one txn, aborted txn full of writes, delete all + reinsert reversed) x request method in {GET,POST,DELETE,OPTIONS} x every Host of 0..3 bytes x every path of 1..7 bytes; 405 and auto-OPTIONS enabled"
 			}
 			return "39 corpus route sets (routes alternately GET/POST) x 10 history shapes x request method in {GET,POST,DELETE,OPTIONS} x every Host of 0..2 bytes x every path of 1..5 bytes; 405 and auto-OPTIONS enabled"
 		},
@@ -375,6 +379,10 @@ func init() {
 							}
 							js = append(js, &Job{Harness: "C11Serve", Params: map[string]int{"set": s, "opts": o, "lh": lh, "lp": lp, "redir": 0}})
 							// redirecting routes (every third) fork on every escaping class of the Location: short paths, few sets
+							if (s == 7 || s == 9) && lh == 0 && lp == 5 && o == 3 {
+								// percent-encoded requests (a %XX escape in a parameter needs 6 bytes)
+								js = append(js, &Job{Harness: "C11Serve", Params: map[string]int{"set": s, "opts": o, "lh": 0, "lp": 6, "redir": 0, "raw": 1}})
+							}
 							if (s == 7 || s == 9 || s == 18) && lh == 0 && lp >= 2 && lp <= 3 && (o == 0 || o == 3) {
 								js = append(js, &Job{Harness: "C11Serve", Params: map[string]int{"set": s, "opts": o, "lh": lh, "lp": lp, "redir": 1}})
 							}
@@ -386,11 +394,11 @@ func init() {
 		},
 		Bounds: func(tier string) string {
 			if tier == "thorough" {
-				return "119 corpus route sets (routes spread over GET/POST/FOO/OPTIONS; per route: every third ignores trailing slashes; on three sets with paths of 2..3 bytes every third route redirects instead and a redirect-scope middleware observes the redirect handler's context) x the 4 combinations of method-not-allowed and auto-OPTIONS x request method in {GET,POST,FOO,OPTIONS,DELETE} x every Host of 0..3 bytes x every path of 1..7 bytes and the target '*'"
+				return fmt.Sprint(nHandSets+103) + " corpus route sets (routes spread over GET/POST/FOO/OPTIONS; per route: every third ignores trailing slashes; on three sets with paths of 2..3 bytes every third route redirects instead and a redirect-scope middleware observes the redirect handler's context) x the 4 combinations of method-not-allowed and auto-OPTIONS x request method in {GET,POST,FOO,OPTIONS,DELETE} x every Host of 0..3 bytes x every path of 1..7 bytes and the target '*'"
 			}
 			return "39 corpus route sets (routes spread over GET/POST/FOO/OPTIONS; per route: every third ignores trailing slashes; on three sets with paths of 2..3 bytes every third route redirects instead and a redirect-scope middleware observes the redirect handler's context) x the 4 combinations of method-not-allowed and auto-OPTIONS x request method in {GET,POST,FOO,OPTIONS,DELETE} x every Host of 0..2 bytes x every path of 1..5 bytes and the target '*'"
 		},
-		RequiredCovers: []string{"404", "405", "OPTIONS", "OPTIONS *", "served by a route", "primed with an ignored trailing-slash match", "redirect handler context observed"},
+		RequiredCovers: []string{"404", "405", "OPTIONS", "OPTIONS *", "served by a route", "primed with an ignored trailing-slash match", "redirect handler context observed", "percent-encoded request"},
 	}
 }
 
@@ -789,7 +797,7 @@ func init() {
 				pre = 3
 			}
 			for _, s := range sets {
-				for sc := 0; sc < 7; sc++ {
+				for sc := 0; sc < 8; sc++ {
 					js = append(js, &Job{Harness: "C05Conc", Params: map[string]int{"set": s, "scenario": sc, "preempt": pre}})
 				}
 			}
@@ -802,9 +810,9 @@ func init() {
 			if tier == "thorough" {
 				sets, pre = 11, 3
 			}
-			return fmt.Sprintf("%d start routers x 7 thread programs (Handle||Handle on different routes from a 7-pattern pool; Handle||Handle on the same route; Update||Delete; two-route Updates || reader doing Has,Has,Iter.All,Has; Handle || ServeHTTP || ServeHTTP on routes sharing nodes; aborted write txn || reader; Update of a parent + Handle below it + marker in one Updates || reader) plus ServeHTTP||ServeHTTP with per-request tokens and NewRoute||NewRoute with 0..4 global middleware registered through WithMiddleware, WithMiddlewareFor or followed by DefaultOptions: every interleaving at synchronisation granularity (mutex Lock, atomic Load/Store, sync.Pool Get/Put, thread start/exit) with at most %d pre-emptive context switches; <= 3 threads besides the joiner; happens-before race monitor on every heap cell", sets, pre)
+			return fmt.Sprintf("%d start routers x 8 thread programs (Truncate(method) + re-registration in one Updates || reader; Handle||Handle on different routes from a 7-pattern pool; Handle||Handle on the same route; Update||Delete; two-route Updates || reader doing Has,Has,Iter.All,Has; Handle || ServeHTTP || ServeHTTP on routes sharing nodes; aborted write txn || reader; Update of a parent + Handle below it + marker in one Updates || reader) plus ServeHTTP||ServeHTTP with per-request tokens and NewRoute||NewRoute with 0..4 global middleware registered through WithMiddleware, WithMiddlewareFor or followed by DefaultOptions: every interleaving at synchronisation granularity (mutex Lock, atomic Load/Store, sync.Pool Get/Put, thread start/exit) with at most %d pre-emptive context switches; <= 3 threads besides the joiner; happens-before race monitor on every heap cell", sets, pre)
 		},
-		RequiredCovers: []string{"W||W different routes", "W||W same route", "Update||Delete", "txn||reader", "W||R||R", "abort||reader", "update+write-below||reader", "concurrent requests", "concurrent NewRoute"},
+		RequiredCovers: []string{"W||W different routes", "W||W same route", "Update||Delete", "txn||reader", "W||R||R", "abort||reader", "update+write-below||reader", "truncate+refill||reader", "concurrent requests", "concurrent NewRoute"},
 		Assumptions: []string{
 			"threads switch only at synchronisation operations; schedules finer than that are covered by the DRF argument only because the happens-before race monitor is clean on every explored schedule",
 			"pre-emption bound as stated; more threads, more operations per thread and unbounded pre-emption are outside the claim",
